@@ -198,6 +198,7 @@ prop("C14", [
 prop("C15", [
     dict(engine="verus", unit="router"),
     # the route table the router decides over is the configured one: parse_dns_route keeps every suffix, in order (real code, bounded)
+    dict(engine="kani", sets=["dns_suffix"]),
     dict(engine="sql", module="routes", domain="every ordered list of 0..=3 suffixes out of 5 nested / case-variant names x 2 handler types (312 route fragments); 860 lists with one invalid entry"),
 ], explanation="longest matching suffix decides (argmax over all matching (route,suffix) pairs), for all route tables and names; the table itself: every configured suffix reaches the router (bounded, real loader)",
     assumptions=["configuration read through the RwLock is a snapshot (single task)",
